@@ -1355,6 +1355,244 @@ def opc3c_prologue_eval(ctx: Ctx) -> None:
     ctx.R.ok("OPC-3c", f"{n_ok} (interpreter, layout, EXTENDED_ARG count, leading context) cases: the `as` target is decoded from the first instruction after the prologue", "engine MINI over FACTS prologues")
 
 
+def opc12_block_walk_table(ctx: Ctx) -> None:
+    """OPC-12 the control-flow walk that finds the handler of a POP_BLOCK (CPython 3.9 / 3.10; never entered by the 3.12 suite) as a
+    table.  One iteration of `while todo:` is evaluated under every assignment of the conditions it tests (already visited /
+    absolute jump / relative jump / SETUP_* / POP_BLOCK / the POP_BLOCK looked for / unconditional transfer); its effects are
+    read as: mark visited; queue(target, block stack as it is *then*); push a handler; pop a block; return the innermost
+    handler.  Targets are compared numerically (offs, arg and the jump multiplier are given distinct values), so any way of
+    writing `offs + 2 + arg * jmul` will do.  Required: visited -> nothing; otherwise mark; absolute jump -> queue(arg*jmul);
+    relative jump -> queue(offs+2+arg*jmul) with the stack *before* a SETUP_* push of that same address; POP_BLOCK -> return
+    stack[-1] if it is the one looked for, else pop; unless an unconditional transfer -> queue(offs+2) with the stack as left"""
+    from ..stepper import Stepper, enumerate_table
+    from ..emit import Unsupported as EUnsupported
+    from ..minieval import Mini, Unsupported as MUnsupported, Raised
+    mod = ctx.P.mod("_lowlevel")
+    fn = mod.fn("currently_exiting_context")
+    loops = [l for l in walk_scope(fn) if isinstance(l, ast.While) and norm(l.test) in ("todo", "len(todo) > 0", "len(todo)", "todo != []")]
+    if len(loops) != 1:
+        ctx.R.undecided("OPC-12", f"{len(loops)} `while todo` loops found (1 expected)")
+        return
+    loop = loops[0]
+    VAL = {"offs": 100, "arg": 7, "jmul": 3}
+
+    def num(e: ast.AST) -> Optional[int]:
+        try:
+            v = Mini(dict(VAL)).expr(e)
+            return v if isinstance(v, int) and not isinstance(v, bool) else None
+        except (MUnsupported, Raised):
+            return None
+
+    def role(atom: str) -> Optional[str]:
+        if " in seen" in atom or atom.startswith("seen"):
+            return "SEEN"
+        if "hasjabs" in atom:
+            return "JABS"
+        if "hasjrel" in atom:
+            return "JREL"
+        if "SETUP_WITH" in atom or "SETUP_FINALLY" in atom:
+            return "SETUP"
+        if "pop_block_offs" in atom:
+            return "TARGET"
+        if "POP_BLOCK" in atom:
+            return "POPB"
+        if "RETURN_VALUE" in atom or "JUMP_FORWARD" in atom or "JUMP_ABSOLUTE" in atom:
+            return "UNCOND"
+        return None
+
+    def run(assign):
+        st = Stepper(assign)
+        st.opaque = {"arg"}
+        st.on_loop = lambda l_, env_: None      # the EXTENDED_ARG accumulation is decided separately below
+        k, v = st.run(loop.body, {})
+        depth = 0
+        out = []
+        for ef in st.effects:
+            try:
+                e = ast.parse(ef, mode="eval").body
+            except SyntaxError:
+                try:
+                    e = ast.parse(ef).body[0]
+                except SyntaxError:
+                    out.append(("?", ef[:50]))
+                    continue
+            t = norm(e)
+            if isinstance(e, ast.Call) and norm(e.func) == "seen.add":
+                out.append(("mark",))
+            elif isinstance(e, ast.Call) and norm(e.func) in ("todo.append", "todo.appendleft") and len(e.args) == 1 and isinstance(e.args[0], ast.Tuple) and len(e.args[0].elts) == 2:
+                tgt, stk = e.args[0].elts
+                copyform = norm(stk) in ("stack[:]", "stack.copy()", "list(stack)", "stack[::]", "[*stack]")
+                if not copyform and norm(stk) != "stack":
+                    out.append(("?", t[:50]))
+                else:
+                    out.append(("queue", num(tgt), depth if copyform else "alias"))
+            elif isinstance(e, ast.Call) and norm(e.func) == "stack.append" and len(e.args) == 1:
+                depth += 1
+                out.append(("push", num(e.args[0])))
+            elif isinstance(e, ast.Call) and norm(e.func) == "stack.pop" and not e.args:
+                depth -= 1
+                out.append(("pop",))
+            elif isinstance(e, (ast.Assign, ast.AnnAssign)) or t.startswith(("arg =", "(offs, stack) =", "offs, stack =")) or isinstance(e, ast.AugAssign):
+                continue      # reading the queue entry / the instruction's argument
+            else:
+                out.append(("?", t[:50]))
+        out = [(x[0], x[1], depth if x[2] == "alias" else x[2]) if x[0] == "queue" else x for x in out]
+        res = k
+        if k == "return" and v is not None:
+            res = "return " + ("stack[-1]" if isinstance(v, ast.Call) and any(k_.arg == "cleanup_offset" and norm(k_.value) == "stack[-1]" for k_ in v.keywords) else norm(v)[:40])
+        return tuple(out), res
+
+    try:
+        atoms, rows = enumerate_table(run, [], max_atoms=9)
+    except EUnsupported as ex:
+        ctx.R.undecided("OPC-12", f"the walk's loop body is outside the step interpreter: {ex}")
+        return
+    roles = {a: role(a) for a in atoms}
+    if None in roles.values() or len(set(roles.values())) != len(roles):
+        ctx.R.undecided("OPC-12", f"conditions of the walk not recognised: {[a for a, r in roles.items() if r is None] or list(roles)}")
+        return
+    if not {"SEEN", "JABS", "JREL", "SETUP", "POPB", "TARGET", "UNCOND"} <= set(roles.values()):
+        ctx.R.undecided("OPC-12", f"the walk tests only {sorted(roles.values())}")
+        return
+    o, a_, j = VAL["offs"], VAL["arg"], VAL["jmul"]
+    bad = None
+    for assign, (effects, res) in rows:
+        r = {roles[k]: v for k, v in assign.items()}
+        if r["SEEN"]:
+            want_e, want_r = (), "continue"
+        else:
+            w = [("mark",)]
+            d = 0
+            if r["JABS"]:
+                w.append(("queue", a_ * j, 0))
+            if r["JREL"]:
+                w.append(("queue", o + 2 + a_ * j, 0))
+                if r["SETUP"]:
+                    w.append(("push", o + 2 + a_ * j))
+                    d += 1
+            want_r = "fall"
+            if r["POPB"]:
+                if r["TARGET"]:
+                    want_r = "return stack[-1]"
+                else:
+                    w.append(("pop",))
+                    d -= 1
+            if want_r == "fall" and not r["UNCOND"]:
+                w.append(("queue", o + 2, d))
+            want_e = tuple(w)
+        if any(x[0] == "?" for x in effects):
+            ctx.R.undecided("OPC-12", f"an effect of the walk is not understood: {[x for x in effects if x[0] == '?'][0][1]}")
+            return
+        if (effects, res) != (want_e, want_r) and bad is None:
+            bad = (r, effects, res, want_e, want_r)
+    if bad is None:
+        ctx.R.ok("OPC-12", f"one iteration of the block walk under {len(rows)} combinations of {sorted(roles.values())}", "visited / queue(target, stack then) / push / pop / return innermost handler as required")
+    else:
+        r, effects, res, want_e, want_r = bad
+        shown = sorted(k for k, v in r.items() if v)
+        ctx.R.fail("OPC-12", mod, loop, f"block walk (CPython 3.9 / 3.10), instruction that is {shown or 'none of the tested kinds'} with offs={o}, arg={a_}, jump multiplier {j}: the iteration does {list(effects)} and ends "
+                   f"`{res}`; required {list(want_e)} and `{want_r}` (queue(target, depth of the block stack handed on), push(handler address)): the handler found for a POP_BLOCK -- i.e. which with-block "
+                   "a normal-path __exit__ belongs to -- is wrong or never found on these interpreters", construct=f"block walk, case {shown}")
+    # the instruction argument with EXTENDED_ARG prefixes: evaluated on [EXTENDED_ARG 1, EXTENDED_ARG 2, <op> 3]
+    pre = [s_ for s_ in loop.body if (isinstance(s_, ast.Assign) and norm(s_.targets[0]) == "arg") or (isinstance(s_, ast.While) and "EXTENDED_ARG" in norm(s_.test))]
+    if len(pre) == 2:
+        EXT = 144
+        env = {"code": [EXT, 1, EXT, 2, 9, 3, 0, 0], "offs": 0, "op": {"EXTENDED_ARG": EXT}}
+        try:
+            m = Mini(env, {}, {})
+            m.env["op"] = None
+            # op[...] subscripts: substitute the constant
+            class _Op(ast.NodeTransformer):
+                def visit_Subscript(self, n_):
+                    if (norm(n_.value) in ("op", "dis.opmap", "opmap") or _is_opmap(ctx, mod, n_.value)) and isinstance(n_.slice, ast.Constant):
+                        return ast.Constant(value=EXT if n_.slice.value == "EXTENDED_ARG" else -1)
+                    return self.generic_visit(n_)
+            import copy as _copy
+            for s_ in pre:
+                m.stmt(ast.fix_missing_locations(_Op().visit(_copy.deepcopy(s_))))
+            got = (m.env.get("arg"), m.env.get("offs"))
+            if got == ((1 << 16) | (2 << 8) | 3, 4):
+                ctx.R.ok("OPC-12", "EXTENDED_ARG prefixes: arg accumulates big-endian and offs ends on the instruction itself")
+            else:
+                ctx.R.fail("OPC-12", mod, pre[0], f"on [EXTENDED_ARG 1, EXTENDED_ARG 2, <op> 3] the walk computes (arg, offs) = {got}; the instruction's argument is {(1 << 16) | (2 << 8) | 3} and it sits at offset 4: "
+                           "jump targets of instructions with extended arguments are wrong", construct="EXTENDED_ARG accumulation in the block walk")
+        except (MUnsupported, Raised) as ex:
+            ctx.R.undecided("OPC-12", f"EXTENDED_ARG accumulation not evaluable: {ex}")
+    else:
+        ctx.R.undecided("OPC-12", "the argument / EXTENDED_ARG accumulation statements of the walk were not found")
+
+
+def opc14_async_position_310(ctx: Ctx) -> None:
+    """OPC-14 position normalisation for `async with` exits on CPython 3.9 / 3.10 (code the 3.12 suite never enters), as a table
+    over A = "the position is a YIELD_FROM", B = "there is an instruction after the next one", C = "the next instruction is a
+    YIELD_FROM": the exit is an async one iff A or (B and C) (a suspended await rests on the YIELD_FROM under the PyPy
+    convention and on the LOAD_CONST before it under CPython's), and the position is moved back by one instruction iff A"""
+    from ..stepper import Stepper, enumerate_table
+    from ..emit import Unsupported as EUnsupported
+    mod = ctx.P.mod("_lowlevel")
+    fn = mod.fn("currently_exiting_context")
+    reach = ctx.reach(mod)
+    cands = [n for n in fn.body if isinstance(n, ast.If) and "sys.version_info" in norm(n.test) and any("YIELD_FROM" in norm(x) for x in ast.walk(n))]
+    if len(cands) != 1:
+        ctx.R.undecided("OPC-14", f"{len(cands)} version branches mention YIELD_FROM at the top level of currently_exiting_context (1 expected)")
+        return
+    node = cands[0]
+    arm = None
+    for body in (node.body, node.orelse):
+        if body and {"3.9", "3.10"} <= set(reach.live.get(id(body[0]), frozenset())) and "3.11" not in reach.live.get(id(body[0]), frozenset()):
+            arm = body
+    if arm is None:
+        ctx.R.undecided("OPC-14", "no arm of the YIELD_FROM branch is reachable exactly under 3.9 / 3.10")
+        return
+
+    def role(atom: str) -> Optional[str]:
+        t = atom.replace(" ", "")
+        if t.startswith("code[offs]==") and "YIELD_FROM" in t:
+            return "A"
+        if t.startswith("code[offs+2]==") and "YIELD_FROM" in t:
+            return "C"
+        if "len(code)" in t and "offs+2" in t:
+            return "B"
+        return None
+
+    def run(assign):
+        st = Stepper(assign)
+        st.opaque = {"is_async", "offs"}
+        k, v = st.run(arm, {})
+        return tuple(st.effects), k
+
+    try:
+        atoms, rows = enumerate_table(run, [], max_atoms=6)
+    except EUnsupported as ex:
+        ctx.R.undecided("OPC-14", f"outside the step interpreter: {ex}")
+        return
+    roles = {a: role(a) for a in atoms}
+    if None in roles.values() or "A" not in roles.values() or len(set(roles.values())) != len(roles):
+        ctx.R.undecided("OPC-14", f"conditions not recognised: {atoms}")
+        return
+    import itertools as _it
+    missing = sorted({"A", "B", "C"} - set(roles.values()))
+    rows = [(dict(assign, **dict(zip(["~" + m_ for m_ in missing], extra))), res) for assign, res in rows for extra in _it.product([False, True], repeat=len(missing))]
+    roles.update({"~" + m_: m_ for m_ in missing})      # a condition the code does not test: the outcome must be right for both of its values
+    for assign, (effects, k) in rows:
+        r = {roles[a]: v for a, v in assign.items()}
+        want_async = r["A"] or (r["B"] and r["C"])
+        want_back = r["A"]
+        got_async = any(e_.replace(" ", "") == "is_async=True" for e_ in effects)
+        backs = [e_ for e_ in effects if e_.replace(" ", "").startswith("offs")]
+        got_back = [e_.replace(" ", "") for e_ in backs] == ["offs-=2"] if backs else False
+        odd = [e_ for e_ in backs if e_.replace(" ", "") != "offs-=2"] or [e_ for e_ in effects if not e_.replace(" ", "").startswith(("offs", "is_async"))]
+        if odd or k != "fall":
+            ctx.R.undecided("OPC-14", f"effect `{(odd or [k])[0]}` not understood")
+            return
+        if (got_async, got_back) != (want_async, want_back):
+            ctx.R.fail("OPC-14", mod, node, f"CPython 3.9 / 3.10, position {'on' if r['A'] else 'not on'} a YIELD_FROM, next instruction {'is' if r['C'] else 'is not'} a YIELD_FROM"
+                       f"{'' if r['B'] else ' (no such instruction)'}: is_async becomes {got_async} and the position {'moves' if got_back else 'does not move'} back; required is_async={want_async}, "
+                       f"{'one instruction back' if want_back else 'no move'}: __aexit__ calls are not recognised (or ordinary exits are taken for awaits) on these interpreters", construct="3.9/3.10 async position table")
+            return
+    ctx.R.ok("OPC-14", f"3.9 / 3.10: is_async iff YIELD_FROM here or next; one step back iff here ({len(rows)} combinations)")
+
+
 def opc13_exception_path_exit(ctx: Ctx) -> None:
     """OPC-13 the exception-path exit: a frame whose position is the WITH_EXCEPT_START of a with-block's handler is exiting that
     block, and the block is identified by the handler's first instruction.  FACTS (with_handler_prefix): the handler starts
